@@ -854,6 +854,114 @@ theorem copy_eq_any_fuel (hC : C.Laws) (hT : DWF T) (n : Nat) (c : ClassId) (v :
 
 end dict
 
+/-! ### children taken over by a parent of another namespace context
+
+  Serialisation is a function of the value and of the table of the class that is being written (`serializeN C T n c t v` has no
+  other argument): a child does not carry a context of its own.  Together with `wfValN_variant` (what a class may hold does not
+  depend on its tags) this gives: a value that was read in one context and is written and read in another comes back unchanged. -/
+
+section moved
+variable {P S : Type} (C : Codec P S) (T : Tabs)
+
+theorem all2_congr_left {α α' β : Type} (f : α → β → Bool) (g : α' → β → Bool) (rel : α → α' → Bool)
+    (h : ∀ a a' b, rel a a' = true → f a b = g a' b) :
+    ∀ (as : List α) (as' : List α') (bs : List β), all2 rel as as' = true → all2 f as bs = all2 g as' bs
+  | [], [], bs, _ => by cases bs <;> rfl
+  | [], _ :: _, _, hr => by simp [all2] at hr
+  | _ :: _, [], _, hr => by simp [all2] at hr
+  | _ :: _, _ :: _, [], _ => rfl
+  | a :: as, a' :: as', b :: bs, hr => by
+    simp only [all2, Bool.and_eq_true] at hr
+    simp only [all2, h a a' b hr.1, all2_congr_left f g rel h as as' bs hr.2]
+
+theorem isCanonArr_sameShape (a b : ArrSpec) (h : a.sameShape b = true) (items : List (Val P S)) :
+    isCanonArr C a items = isCanonArr C b items := by
+  simp only [ArrSpec.sameShape, Bool.and_eq_true, beq_iff_eq] at h
+  obtain ⟨⟨⟨⟨_, _⟩, h3⟩, h4⟩, h5⟩ := h
+  simp only [isCanonArr, h3, h4, h5]
+
+theorem wfField_variant (ne : Bool) (wf : ClassId → Val P S → Bool) (vr : ClassId → ClassId → Bool)
+    (hv : ∀ c d v, vr c d = true → wf c v = wf d v) (r r' : Row) (v : Val P S)
+    (h : Kind.variant vr r.kind r'.kind = true) : wfField C ne wf r v = wfField C ne wf r' v := by
+  rcases r with ⟨n1, t1, p1, k, q1⟩
+  rcases r' with ⟨n2, t2, p2, k', q2⟩
+  cases k <;> cases k' <;> simp only [Kind.variant, Bool.false_eq_true, Bool.and_eq_true, beq_iff_eq] at h
+  case prim.prim => subst h; cases v <;> rfl
+  case attr.attr => subst h; cases v <;> rfl
+  case text.text => subst h; cases v <;> rfl
+  case primList.primList => subst h; cases v <;> rfl
+  case child.child c d =>
+    have e : wf c = wf d := funext (fun x => hv c d x h)
+    cases v <;> simp only [wfField, e]
+  case list.list c d =>
+    have e : wf c = wf d := funext (fun x => hv c d x h)
+    cases v <;> simp only [wfField, e]
+  case array.array c a d b =>
+    have e : wf c = wf d := funext (fun x => hv c d x h.1)
+    have hs := h.2
+    have ec := isCanonArr_sameShape C a b hs
+    simp only [ArrSpec.sameShape, Bool.and_eq_true, beq_iff_eq] at hs
+    cases v <;> simp only [wfField, e, ec, hs.1.1.1.1, hs.1.1.1.2]
+  case floatArr.floatArr f g => cases v <;> simp only [wfField, h]
+  case params.params c w d w' =>
+    have e : wf c = wf d := funext (fun x => hv c d x h)
+    cases v <;> simp only [wfField, e]
+  case count.count => cases v <;> rfl
+  case const.const => cases v <;> rfl
+  case which.which => cases v <;> rfl
+
+/-- what a class may hold does not depend on the namespace context it is seen from -/
+theorem wfValN_variant (ne : Bool) : ∀ (n : Nat) (c d : ClassId) (v : Val P S), variantN n T c d = true →
+    wfValN C T ne n c v = wfValN C T ne n d v
+  | 0, _, _, _, _ => rfl
+  | n + 1, c, d, v, h => by
+    unfold variantN at h
+    unfold wfValN
+    cases hc : T[c]? with
+    | none => simp [hc] at h
+    | some tc =>
+      cases hd : T[d]? with
+      | none => cases tc <;> simp [hc, hd] at h
+      | some td =>
+        cases tc <;> cases td <;> simp only [hc, hd, Bool.false_eq_true] at h
+        case rows.rows rs rs' =>
+          cases v with
+          | node kids =>
+            exact all2_congr_left _ _ _
+              (fun r r' b hr => wfField_variant C ne _ _ (fun c d v hcd => wfValN_variant ne n c d v hcd) r r' b hr) rs rs' kids h
+          | absent => rfl
+          | prim x => rfl
+          | blob a x ch => rfl
+        case custom.custom => cases v <;> rfl
+        case poly.poly s s' =>
+          simp only [Bool.and_eq_true, beq_iff_eq] at h
+          cases v <;> simp only [wfPoly, h.1.1, h.1.2, h.2]
+
+/-- **a value taken over by a parent of another namespace context round-trips there**: well formed as class `c`, written and read
+    as the variant `d` of the class -/
+theorem moved_roundtrip (hC : C.Laws) (hT : WF T) (n : Nat) (c d : ClassId) (t : QName) (v : Val P S)
+    (hcd : variantN n T c d = true) (h : WFVal C T n c v) : parseN C T n d (serializeN C T n d t v) = some v :=
+  parse_serialize C T hC hT n d t v (by unfold WFVal at h ⊢; rw [← wfValN_variant C T true n c d v hcd]; exact h)
+
+/-- ... in particular a child that was itself read from a document of the other context: read as `c`, then written and read as `d` -/
+theorem moved_after_parse (hC : C.Laws) (hT : WF T) (n : Nat) (c d : ClassId) (t t' : QName) (v : Val P S)
+    (hcd : variantN n T c d = true) (h : WFVal C T n c v) :
+    ((parseN C T n c (serializeN C T n c t v)).bind fun w => parseN C T n d (serializeN C T n d t' w)) = some v := by
+  rw [parse_serialize C T hC hT n c t v h]
+  exact moved_roundtrip C T hC hT n c d t' v hcd h
+
+/-- what is written for a child that was read elsewhere is what is written for its value: no state travels with the child -/
+theorem serialize_moved_eq (hC : C.Laws) (hT : WF T) (n : Nat) (c d : ClassId) (t t' : QName) (v : Val P S) (h : WFVal C T n c v) :
+    (parseN C T n c (serializeN C T n c t v)).map (serializeN C T n d t') = some (serializeN C T n d t' v) := by
+  rw [parse_serialize C T hC hT n c t v h]; rfl
+
+/-- dict form and copy of the moved value -/
+theorem moved_copy (hC : C.Laws) (hT : DWF T) (n : Nat) (c d : ClassId) (v : Val P S)
+    (hcd : variantN n T c d = true) (h : WFValD C T n c v) : copyN C T n d v = some v :=
+  copy_eq C T hC hT n d v (by unfold WFValD at h ⊢; rw [← wfValN_variant C T false n c d v hcd]; exact h)
+
+end moved
+
 /-! ### non-vacuity: a concrete table set, value and codec -/
 
 namespace Example
@@ -986,6 +1094,18 @@ example : parseN codec tabs 3 0 (.mk (0, 1) [] none [.mk (0, 11) [] (some [1]) [
     .mk (0, 40) [((0, 16), [2])] none [.mk (0, 41) [((0, 42), [2])] (some [5]) [], .mk (0, 41) [((0, 42), [1])] (some [6]) []]])
     = some (.node [.absent, .prim 1, .absent, .absent, .absent, .absent, .absent, .node [.prim 5, .prim 6], .absent, .absent,
                    .absent, .absent, .absent, .absent, .absent, .absent]) := by rfl
+/-- the same class seen from two namespace contexts (tags differ, fields and kinds agree): a value read in one is written and
+    read in the other -/
+def tabsV : Tabs := [.rows [⟨0, (0, 10), (0, 10), .attr 4, true⟩, ⟨2, (0, 12), (0, 12), .child 2, false⟩],
+                     .rows [⟨0, (0, 10), (0, 10), .attr 4, true⟩, ⟨2, (1, 12), (1, 12), .child 3, false⟩],
+                     .rows [⟨7, (0, 20), (0, 20), .prim 4, true⟩], .rows [⟨7, (1, 20), (1, 20), .prim 4, true⟩]]
+example : variantN 3 tabsV 0 1 = true := by decide
+example : WF tabsV := by decide
+example : ((parseN codec tabsV 3 0 (serializeN codec tabsV 3 0 (0, 1) (.node [.prim 5, .node [.prim 6]]))).bind
+    fun w => parseN codec tabsV 3 1 (serializeN codec tabsV 3 1 (1, 1) w)) = some (.node [.prim 5, .node [.prim 6]]) :=
+  moved_after_parse codec tabsV codec_laws (by decide) 3 0 1 (0, 1) (1, 1) _ (by decide) (by decide)
+/-- ... and kinds that differ are not variants -/
+example : variantN 3 tabs 1 3 = false := by decide
 end Example
 
 end Sarpy.Props.C05
